@@ -134,7 +134,7 @@ PROFILE = dict(
     p_demux=0.12, p_info=0.15, p_rename=0.05, p_revcomp=0.05, p_pair_adapters=0.03,
     p_minimal_report=0.05, p_stdout=0.1, workers=(2, 4), simple_adapters=True,
     p_big=0.004, p_huge=0.0, p_long_read=0.0,  # few large inputs, and never with a one-pair buffer (see _bias_buffer)
-    allow_fasta_names_for_fastq=False, p_qbase64=0.03, p_quiet=0.04, p_debug=0.03, p_bam=0.06,
+    allow_fasta_names_for_fastq=False, p_qbase64=0.03, p_quiet=0.04, p_debug=0.03, p_bam=0.06, p_devfd=0.05,
 )
 
 
